@@ -296,3 +296,70 @@ func TestDocCodes(t *testing.T) {
 }
 
 func isNull(b []byte) bool { return strings.TrimSpace(string(b)) == "null" }
+
+// TestPropConcurrentDispatch: the same dispatch oracle on a concurrent batch in
+// which a few request shapes repeat many times (so requests queue up behind each
+// other on their groups, including groups spelled like another resource's name),
+// while other goroutines resolve resource names through Service.Resource.
+func TestPropConcurrentDispatch(t *testing.T) {
+	rapid.Check(t, func(t *rapid.T) {
+		c := reqcase.Case{Name: "svc", Workers: rapid.SampledFrom([]int{1, 2, 4, 16}).Draw(t, "workers")}
+		c.Handlers = reqcase.GenHandlers().Draw(t, "handlers")
+		c.Noise = rapid.SampledFrom([]int{0, 1, 3}).Draw(t, "noise")
+		nshape := rapid.IntRange(1, 6).Draw(t, "nshape")
+		var shapes []reqcase.ReqSpec
+		for i := 0; i < nshape; i++ {
+			shapes = append(shapes, reqcase.GenRequest(c.Name, c.Handlers, "").Draw(t, "shape"))
+		}
+		n := rapid.IntRange(2, 120).Draw(t, "nreq")
+		for i := 0; i < n; i++ {
+			rq := shapes[rapid.IntRange(0, nshape-1).Draw(t, "which")]
+			if rq.Fields != nil {
+				cp := map[string]json.RawMessage{}
+				for k, v := range rq.Fields {
+					cp[k] = v
+				}
+				rq.Fields = cp
+			}
+			c.Reqs = append(c.Reqs, rq)
+		}
+		reqcase.TagQueries(&c)
+		r := reqcase.RunConcurrent(&c)
+		if r.StartErr != nil {
+			t.Fatalf("service did not start: %v", r.StartErr)
+		}
+		if r.WaitErr != nil {
+			t.Fatalf("%v", r.WaitErr)
+		}
+		ntc, tagged := 0, 0
+		groups := map[string]int{}
+		for i := range r.Obs {
+			rq := c.Reqs[i]
+			if rq.Fields == nil {
+				continue // an untagged request cannot be told apart from its duplicates
+			}
+			tagged++
+			if d := reqcase.Route(&c, &rq); d.Marker != "" {
+				groups[d.Group]++
+			}
+			msg, nt := check(&c, &rq, r.Obs[i])
+			if nt {
+				ntc++
+			}
+			if msg != "" {
+				t.Fatalf("concurrent batch of %d (workers %d, %d lookup goroutines): %s\nhandlers: %+v", len(c.Reqs), c.Workers, c.Noise, msg, c.Handlers)
+			}
+		}
+		queued := false
+		for _, k := range groups {
+			if k >= 3 {
+				queued = true
+			}
+		}
+		ev.Case(queued && ntc > 0, evid.Hash(c.String()), "concurrent-batch")
+		ev.Add("concurrent-requests-checked", int64(tagged))
+		if c.Noise > 0 {
+			ev.Label("with-concurrent-resource-lookups")
+		}
+	})
+}
